@@ -119,11 +119,17 @@ func ParseSimple(dsn string, target interface{}) error {
 		// If the value starts with a quotation mark consume more parts
 		// until the quotation is finished.
 		for _, quot := range quotations {
-			if !strings.Contains(part, "="+string(quot)) {
+			start := strings.Index(part, "="+string(quot))
+			if start < 0 {
 				continue
 			}
 
-			for part[len(part)-1] != quot {
+			// The value is complete when the part ends with a quotation
+			// mark that is not the opening quotation mark.
+			for len(part) < start+3 || part[len(part)-1] != quot {
+				if len(dsnS) == 0 {
+					return fmt.Errorf("dsn: missing closing quotation mark in %q", part)
+				}
 				part = strings.Join([]string{part, dsnS[0]}, " ")
 				dsnS = dsnS[1:]
 			}
@@ -140,7 +146,7 @@ func ParseSimple(dsn string, target interface{}) error {
 		// Remove quotation from value
 		if value != "" {
 			for _, quot := range quotations {
-				if value[0] == quot && value[len(value)-1] == quot {
+				if len(value) >= 2 && value[0] == quot && value[len(value)-1] == quot {
 					value = value[1 : len(value)-1]
 				}
 			}
